@@ -230,6 +230,28 @@ def capacity_field_rule(rep, u, field="data_allocated_size", hdr_rec="ini_line_s
     return n
 
 
+def bracket_rule(rep, u):
+    """ini_val_set writes a new section header as '[' + name + ']' with the name copied verbatim (a name may contain ']').
+    The parser must therefore take everything up to the *last* ']' of the line: its bracket search runs backwards - unless
+    the writer refuses names that contain the delimiter."""
+    fp, fw = need(u, "ini_buf_parse"), need(u, "ini_val_set")
+    rep.functions.update([fp.name, fw.name])
+    REV = {"mem_rchr", "mem_rchr_ptr", "mem_rchr_off", "memrchr"}
+    FWD = {"mem_chr", "mem_chr_ptr", "mem_chr_off", "memchr"}
+    writer_refuses = any(const_val(a) == 0x5d for _p, _r, c, _ps in fw.calls(REV | FWD) for a in c["args"])
+    sites = [(c, c.get("fn")) for _p, _r, c, _ps in fp.calls(REV | FWD) if any(const_val(a) == 0x5d for a in c["args"])]
+    desc = "ini_buf_parse delimits a section name by the last ']' of the line (the writer copies names verbatim)"
+    if not sites:
+        rep.violated("R-AGREE", fp, "section-bracket", desc, "no search for ']' found")
+    elif all(f in REV for c, f in sites) or writer_refuses:
+        rep.proved("R-AGREE", fp, "section-bracket", desc, "%s" % sorted({f for c, f in sites}))
+    else:
+        c, f = [x for x in sites if x[1] not in REV][0]
+        rep.violated("R-AGREE", fp, "section-bracket", desc, "%s at line %s stops at the first ']': a section written as [a]b] is read back as 'a' and no "
+                     "longer found under its name" % (f, c.get("ln")), c.get("ln"))
+    return 1
+
+
 # ------------------------------------------------------------------ R-AGREE calc vs gen
 
 def calc_gen_agree(rep, u):
@@ -591,6 +613,7 @@ def run(rep, tier):
     n += repoint_rule(rep, u)
     rep.floor("single obligations", n, 4)
     rep.floor("capacity field stores", capacity_field_rule(rep, u), 2)
+    bracket_rule(rep, u)
     return driver.finish(
         rep, "other",
         "INI store, structural clauses: generator writes guarded by offset+pending <= capacity (grid evaluation of the guard), size "
